@@ -100,8 +100,13 @@ def load_seeded():
             meta = d / "meta.json"
             if meta.exists() and (d / "patch.diff").exists():
                 m = json.loads(meta.read_text())
-                out.append({"id": d.name, "patch": str(d / "patch.diff"), "checks": m.get("detected_by") or [m["property"]],
-                            "expect": m.get("expect", {}), "meta": m})
+                det = m.get("detected_by") or [m["property"]]
+                # the check of the property the change was written against must report it; when that property is not among the
+                # detecting checks (a change that in fact breaks a neighbouring property), the recorded detecting checks must
+                checks = [m["property"]] if m["property"] in det else det
+                if os.environ.get("KVERIF_SEEDED_ALL"):
+                    checks = det
+                out.append({"id": d.name, "patch": str(d / "patch.diff"), "checks": checks, "expect": m.get("expect", {}), "meta": m})
     return out
 
 
